@@ -40,6 +40,7 @@ type (
 		loopIndex     int
 		tryCatchIndex int
 		iotaVal       int
+		sharedExpr    int
 		opts          *CompilerOptions
 		trace         io.Writer
 		indent        int
@@ -255,7 +256,9 @@ func (c *Compiler) optimize(node parser.Node) error {
 }
 
 func (c *Compiler) optimizeExpr(expr *parser.Expr) (bool, error) {
-	if !c.optimizeInit() {
+	// an expression which is compiled more than once must not be rewritten
+	// in place, see compileDeclValue.
+	if c.sharedExpr > 0 || !c.optimizeInit() {
 		return false, nil
 	}
 
